@@ -4,7 +4,8 @@ proof : coq/proofs/Secrets_Proofs.v (T1 no_secret_in_observables, T2 secrets_typ
         T3 no_secret_causal_device, unrepaired_refuted, resp_observers_ok, resp_repr_refuted), props/C12.v.
 tie   : (a) Gen_Sinks.v regenerated from the source (every logger.* / raise / __repr__ / __str__ sink of EVERY module of
         the package — scrapli/response.py, helper.py, factory.py included — with the identifiers flowing into it, closed
-        under local assignments, call edges and attribute stores) + `sinks_ok (outside known_region gen_sinks) = true`
+        under local assignments, call edges and attribute stores; a dataclass object formatted as a whole stands for every
+        field its generated repr prints) + `sinks_ok (outside known_region gen_sinks) = true`
         decided by vm_compute (the full statement is refuted: known finding C12-response-*-hidden-input);
         (b) correspondence of model/Secrets.v [run_op] against the real channel / driver code (sync and asyncio)
         on the same generated scenarios: canary secrets through every in-channel login path, privilege escalation,
@@ -16,12 +17,15 @@ oracle: independent of the model — every record on the 'scrapli' logger tree a
         Response / MultiResponse handed to the user and the exception of its raise_for_status() (failed responses of
         hidden interactions included; one model case per probe).  Oracle-only (outside the Coq model):
         Response.textfsm_parse_output, and the failing writes of the runs through the REAL transport plugins (harness/c12_rt.py: fake pty / socket / stream / library channel) with the
-        endpoint dead at a write of the login / escalation / hidden-input dialogue."""
+        endpoint dead at a write of the login / escalation / hidden-input dialogue; the LIBRARY authentication of the paramiko /
+        asyncssh plugins (harness/c12_auth.py: their real open() against fakes of the library objects and against in-process
+        loopback ssh servers that reject the password / the key, accept, drop during the authentication)."""
 import asyncio
 import io
 import json
 import logging
 import os
+import random
 import time
 import warnings
 
@@ -481,11 +485,17 @@ def run_scenario(sc, workdir):
     obs = {"exceptions": [], "reprs": [], "results": [], "responses": []}
     r = Runner(stack)
     d = None
+    actx = None
     wctx = warnings.catch_warnings(record=True)
     wlist = wctx.__enter__()
     warnings.simplefilter("always")
     try:
-        if sc.get("transport"):
+        if sc.get("libauth"):
+            # the REAL transport plugin AND its real open(): library authentication against fakes of the library
+            # objects / in-process loopback servers that accept, reject or drop (harness/c12_auth.py)
+            from .c12_auth import make_auth_driver
+            d, actx = make_auth_driver(sc, dev, workdir, **kw)
+        elif sc.get("transport"):
             # the REAL transport plugin with a fake endpoint (pty / socket / stream pair / library channel)
             from .c12_rt import make_real_driver
             d = make_real_driver(sc["kind"], sc["transport"], dev, tuple(sc.get("policy", ["whole"])), sc.get("fault"), **kw)
@@ -543,6 +553,9 @@ def run_scenario(sc, workdir):
             try:
                 if name == "open":
                     r.call(d.open)
+                elif name == "open_ctx":
+                    # `with Driver(...) as conn:` — a failing open is reported as ScrapliConnectionError(exc)
+                    r.call(d.__enter__ if stack == "sync" else d.__aenter__)
                 elif name == "transport_open":
                     if stack == "sync":
                         d.transport.open()
@@ -601,6 +614,12 @@ def run_scenario(sc, workdir):
             obs["reprs"].append(("repr_after", repr(d)))
             obs["reprs"].append(("str_after", str(d)))
     finally:
+        if actx is not None:
+            obs["offered"] = [list(x) for x in actx.offered]
+            try:
+                actx.cleanup(r)
+            except Exception as e:  # noqa
+                obs["offered"].append(["cleanup failed", type(e).__name__])
         try:
             r.close()
         except Exception:  # noqa
@@ -1161,6 +1180,77 @@ def sc_rt(rng, tname, kind, policy=None):
             "timeout": False, "fault": None}
 
 
+LIBAUTH = {"paramiko": "sync", "asyncssh": "async"}
+
+
+def sc_libauth(rng, tname, endpoint, key, password, kind="generic", channel="ok", via=None, policy=None):
+    """the plugin's REAL open() of a transport that authenticates through its ssh library (paramiko / asyncssh): the
+    server side (endpoint `fake`: fakes of the library objects; `loopback`: in-process ssh servers and the real client
+    libraries — harness/c12_auth.py) rejects / accepts / drops at the key (`key` None: no key configured) and at the
+    password; `channel` drop: the session dies when the shell is requested.  After an accepted authentication on a
+    fake endpoint the dialogue goes on like sc_rt's (enable escalation / hidden interactive input, responses probed)."""
+    from .c12_auth import ASYNCSSH_DROPS, PARAMIKO_DROPS
+    stack = LIBAUTH[tname]
+    pw, ph, sec2 = canary(rng, "P"), canary(rng, "K"), canary(rng, "E")
+    user = "lab%d" % rng.randrange(100)
+    cmd, out = "show nori%d" % rng.randrange(100), "OUT-kelp%d" % rng.randrange(1000)
+    dkw = {"auth_username": user, "auth_password": pw, "auth_private_key_passphrase": ph}
+    dv = {"platform": dev_platform(kind), "login_mode": "exec", "enable_secret": sec2}
+    spec = {"endpoint": endpoint, "key": key, "password": password, "channel": channel}
+    if "drop" in (key, password, channel):
+        spec["drop_exc"] = rng.choice(PARAMIKO_DROPS if tname == "paramiko" else ASYNCSSH_DROPS)
+    secrets = {"password": pw, "passphrase": ph}
+    opener = [via or rng.choice(["open", "open", "open_ctx"])]
+    if endpoint == "loopback":
+        # the loopback server's shell is an echo process, not a device: the scenario is the authentication
+        if kind != "generic":
+            raise ValueError("loopback endpoints have no device behind them: generic driver only")
+        ops = [opener, ["repr"], ["close"]]
+    elif kind == "generic":
+        evs = [["enable", "Password:", False], [sec2, "router1#", True]]
+        ops = [opener, ["send_interactive", evs, ["router1>", "router1#"], rng.choice([None, ["Password"]])], ["repr"], ["close"]]
+        secrets["hidden"] = sec2
+    else:
+        dkw["auth_secondary"] = sec2
+        ops = [opener, ["send_command", cmd, rng.choice([None, ["OUT-"]])], ["repr"], ["close"]]
+        secrets["secondary"] = sec2
+    mode = "%s/%s key=%s password=%s%s" % (tname, endpoint, key, password, " channel=drop" if channel == "drop" else "")
+    return {"family": "libauth", "mode": mode, "kind": kind, "stack": stack, "transport": tname, "libauth": spec,
+            "policy": policy or (["whole"] if stack != "sync" else gen_policy(rng)), "device": dv, "driver_kwargs": dkw,
+            "secrets": secrets, "outputs": {cmd: out}, "publics": [cmd, out, user, "enable"], "ops": ops,
+            "timeout": False, "fault": None}
+
+
+# (key outcome, password outcome, channel): the server rejects the password / rejects the key (then takes or rejects the
+# password) / accepts / drops during the authentication / right after it
+LIBAUTH_OUTCOMES = [(None, "reject", "ok"), ("reject", "reject", "ok"), ("reject", "accept", "ok"), (None, "accept", "ok"),
+                    ("accept", "reject", "ok"), (None, "drop", "ok"), ("drop", "reject", "ok"), ("reject", "drop", "ok"),
+                    ("unreadable", "reject", "ok"), ("unreadable", "accept", "ok"), (None, "accept", "drop")]
+LIBAUTH_LOOPBACK = [(None, "reject"), ("reject", "reject"), (None, "accept"), ("reject", "accept"), ("accept", "reject"),
+                    (None, "drop")]
+
+
+def corpus_libauth(rng):
+    """the transports that authenticate through their ssh library: the plugin's real open() against a server side that
+    rejects the password / the key, accepts, drops during the authentication (fakes of the library objects: every
+    outcome; real libraries against in-process loopback servers: the ones a server decides)"""
+    out = []
+    for tname in sorted(LIBAUTH):
+        for (key, password, channel) in LIBAUTH_OUTCOMES:
+            out.append(sc_libauth(rng, tname, "fake", key, password, rng.choice(RT_KINDS), channel))
+        for via in ("open", "open_ctx"):
+            out.append(sc_libauth(rng, tname, "fake", None, "reject", "generic", via=via))
+        for (key, password) in LIBAUTH_LOOPBACK:
+            out.append(sc_libauth(rng, tname, "loopback", key, password, "generic", policy=["whole"]))
+    return out
+
+
+def gen_libauth(rng):
+    tname = rng.choice(["paramiko", "asyncssh"])
+    key, password, channel = rng.choice(LIBAUTH_OUTCOMES + LIBAUTH_OUTCOMES[:3])
+    return sc_libauth(rng, tname, "fake", key, password, rng.choice(RT_KINDS), channel)
+
+
 def rt_faults(rng, sc, obs, every):
     """the same dialogue with the endpoint dead at one of its writes: at EVERY write that carries a secret, and at
     one other write (all other writes when `every`); the exception is one the plugin's endpoint raises"""
@@ -1329,7 +1419,8 @@ def summarize(obs):
             "n_writes": sum(1 for e in obs["events"] if e[0] == "twrite"),
             "failed_writes": [as_text(obs["events"][i - 1][1])[:80] for i, e in enumerate(obs["events"])
                               if e[0] == "twrite_exc" and i and obs["events"][i - 1][0] == "twrite"][:4],
-            "responses": obs.get("responses", [])[:6]}
+            "responses": obs.get("responses", [])[:6],
+            "offered_to_server": [[x if not isinstance(x, str) or len(x) < 60 else x[:57] + "..." for x in o] for o in obs.get("offered", [])][:6]}
 
 
 def run(rep):
@@ -1368,6 +1459,9 @@ def run(rep):
     if rep.broken:
         n_gen *= 2      # an obligation broke: widen the search for a concrete leaking input
     scenarios = corpus(rng) + [gen_scenario(rng, with_rt=thorough) for _ in range(n_gen)] + [gen_malformed(rng) for _ in range(n_mal)]
+    # library-authenticated transports: own stream (derived from rep.rng after the streams above, which stay what they were)
+    lrng = random.Random(rng.getrandbits(64))
+    scenarios += corpus_libauth(lrng) + [gen_libauth(lrng) for _ in range(400 if thorough else 16)]
     # replays of listed findings run first
     for f in rep.findings:
         p = os.path.join(common.VERIF, f.get("replay", ""))
@@ -1378,7 +1472,7 @@ def run(rep):
                 rep.notes.append("finding replay %s unreadable: %s" % (p, e))
     dist = {"family": {}, "mode": {}, "stack": {}, "kind": {}, "policy": {}, "exception": {}, "ops_modelled": {},
             "secret_len": {}, "metachar_secrets": 0, "writes_redacted": 0, "writes_shown": 0, "flag_hits": {},
-            "responses": {}, "response_probes": {}, "write_faults": {}, "real_transport": {}}
+            "responses": {}, "response_probes": {}, "write_faults": {}, "real_transport": {}, "library_auth": {}}
     terms, term_src = [], []
     resp_terms = set()
     nviol = 0
@@ -1400,8 +1494,16 @@ def run(rep):
             dist["responses"][key] = dist["responses"].get(key, 0) + 1
             for pr in rs["probes"]:
                 dist["response_probes"][pr] = dist["response_probes"].get(pr, 0) + 1
-        if sc["family"] == "rt":
+        if sc["family"] in ("rt", "libauth"):
             dist["real_transport"][sc["transport"]] = dist["real_transport"].get(sc["transport"], 0) + 1
+        if sc["family"] == "libauth":
+            # which authentication outcome, how it reached the user, and whether the password crossed to the server side
+            la = sc["libauth"]
+            crossed = any(any(isinstance(f, str) and occurs(v, f) for f in o) for o in obs.get("offered", []) for v in all_secrets(sc).values())
+            key = "%s %s key=%s password=%s channel=%s -> %s%s" % (
+                sc["transport"], la["endpoint"], la.get("key"), la["password"], la.get("channel", "ok"),
+                obs["exceptions"][0]["chain"][0]["cls"] if obs["exceptions"] else "opened", " (secret offered)" if crossed else "")
+            dist["library_auth"][key] = dist["library_auth"].get(key, 0) + 1
         if (sc.get("fault") or {}).get("write_at") and sc["family"] in ("rt", "transport-write"):
             # did the fault hit a write that carried a secret, and what reached the user
             hit = any(e[0] == "twrite_exc" for e in obs["events"]) or any(x["where"] == "write" for x in obs["exceptions"])
@@ -1421,7 +1523,8 @@ def run(rep):
         if obs.get("skipped"):
             dist.setdefault("skipped", {})[sc["mode"]] = obs["skipped"][:80]
         typed_secret = (sc["family"] == "transport-write" and any(any(occurs(v, r_) for v in secs.values()) for r_ in obs["results"])) or any(any(occurs(v, as_text(h)) for v in secs.values()) for h in obs["hidden_lines"]) or \
-            any(any(occurs(v, as_text(e[1])) for v in secs.values()) for e in obs["events"] if e[0] == "twrite")
+            any(any(occurs(v, as_text(e[1])) for v in secs.values()) for e in obs["events"] if e[0] == "twrite") or \
+            any(any(isinstance(f, str) and occurs(v, f) for v in secs.values()) for o in obs.get("offered", []) for f in o)
         rep.case(("sc", sc["family"], sc["mode"], sc["stack"], sc["kind"], tuple(sc["policy"]), tuple(sorted(secs.values()))),
                  nontrivial=typed_secret)
         if si in (0, 9, 20) or (si == len(scenarios) - 1):
@@ -1435,7 +1538,7 @@ def run(rep):
                         {"suite": "secrets", "scenario": sc, "leaks": leaks[:10], "observed": summarize(obs),
                          "rerun": "./check C12 --replay <this file>"}, signature=sig):
                     nviol += 1
-        # model cases
+        # model cases (the library authentication itself is oracle-only; what follows an accepted one is modelled)
         items = items_of(sc)
         for (label, a, kw, evs, exc, exc_text) in op_segments(obs["events"]):
             try:
@@ -1463,6 +1566,8 @@ def run(rep):
             resp_terms.add(term)
             terms.append(term)
             term_src.append((si, label, ev[4][0] if ev[4] else None))
+    from .c12_auth import close_env
+    close_env()
     bad, log = common.eval_cases(rep.workdir, "cases_c12", HEADER, terms, "chk", shard=300)
     rep.coverage["correspondence"] = {"suite": "secrets", "scenarios": len(scenarios), "model_cases": len(terms),
                                       "distribution": dist, "model_disagreements": None if bad is None else len(bad),
@@ -1473,7 +1578,9 @@ def run(rep):
     rep.rule = ("scenario = (family, mode, driver kind, stack, chunking policy, canary values); corpus (the enable-without-password "
                 "defect on every platform and stack, permission denied, rejected logins, disconnects, timeouts, refused hidden inputs "
                 "with failed responses, every real transport plugin with a fake endpoint: whole login / escalation / hidden-input "
-                "dialogues and the endpoint dead at every secret-carrying write) + seeded scenarios + "
+                "dialogues and the endpoint dead at every secret-carrying write; the real open() of the paramiko / asyncssh plugins with "
+                "the server side rejecting the password / the key, accepting, dropping during / right after the authentication, "
+                "through open() and the context manager: fakes of the library objects and in-process loopback ssh servers) + seeded scenarios + "
                 "a malformed stream (all-metacharacter / very long / format-looking secrets, truthy non-bool hidden flag); "
                 "every Response / MultiResponse handed to the user is probed with str(), raise_for_status() and (no hidden input) repr(); "
                 "non-trivial = a secret was actually typed at the device; every scenario is scanned by the oracle, every channel "
@@ -1529,7 +1636,11 @@ def replay(path):
         print("nothing to replay (no concrete input): %s" % r.get("what"))
         return 1
     wd = os.path.join(common.BUILD, "C12", "replay")
-    obs, leaks = check_scenario(sc, wd)
+    try:
+        obs, leaks = check_scenario(sc, wd)
+    finally:
+        from .c12_auth import close_env
+        close_env()
     print("scenario:", json.dumps({k: sc[k] for k in ("family", "mode", "kind", "stack", "policy", "ops")}))
     print("secrets :", all_secrets(sc))
     print("observed:", json.dumps(summarize(obs)))
@@ -1553,7 +1664,9 @@ MANIFEST = {
             "run): over every logger call, raise and __repr__/__str__ of EVERY module of the scrapli package (anchored files, the files "
             "between them and the credentials, scrapli/response.py, helper.py, factory.py, ptyprocess.py, ...), no secret-carrying "
             "identifier (closed under local assignments, call edges and attribute stores: Response.channel_input stands for the joined "
-            "interact inputs) reaches the message except under the redacted / hidden_input guard — PARTIAL: outside the two sinks of the "
+            "interact inputs; an object of a package dataclass formatted as a whole — `self.plugin_transport_args`, "
+            "`_plugin_transport_args`, any identifier annotated / constructed / named as a holder of one — stands for every field its "
+            "generated repr prints, auth_password included) reaches the message except under the redacted / hidden_input guard — PARTIAL: outside the two sinks of the "
             "known finding C12-response-*-hidden-input (Response.__repr__, the `no template` warning of textfsm_parse_output), for "
             "which the full statement is refuted by computation. Partial / observed only: the real runtime is observed, not proved — "
             "canary secrets (regex/format metacharacters included) through telnet login, system-ssh login, enable / root-shell "
@@ -1563,21 +1676,38 @@ MANIFEST = {
             "(failed responses of hidden interactions and of commands after an escalation included); whole login / escalation / "
             "hidden-input dialogues through the REAL system, telnet, asynctelnet, paramiko and asyncssh transport classes over a fake "
             "endpoint, and the same dialogues with the endpoint dead (EIO / EBADF / EPIPE / ECONNRESET / EOF) at every write that "
-            "carries a secret and at other writes; channel.write(redacted) through every plugin with the endpoint dead at the secret.",
+            "carries a secret and at other writes; channel.write(redacted) through every plugin with the endpoint dead at the secret; "
+            "the library authentication of the paramiko and asyncssh transports: their REAL open() (through Driver.open and the "
+            "context manager) with the server side rejecting the password, rejecting / failing to load / accepting the key, accepting "
+            "the password, dropping the connection during the authentication (EOF / no session / reset / broken pipe / ConnectionLost / "
+            "DisconnectError / timeout) or when the shell channel is requested — against fakes of the library objects (every outcome, "
+            "the dialogue goes on after an accepted one) and with the real client libraries against in-process loopback ssh servers.",
     "note": "Trusted: Coq kernel + vm_compute; the hand model coq/model/Secrets.v (tied to the code by running every channel operation "
             "of every scenario through the model on the history observed at the transport: same write records REDACTED-or-shown, reads, "
             "channel log, exception class; other records compared as sets of data items); gen/gen_sinks.py (identifier-level value flow "
             "is a syntactic approximation of Python semantics: attribute names not objects (an attribute load stands for every store "
             "under that name: class family for self, package-wide otherwise), calls resolved by name and receiver, no "
-            "aliasing through containers, getattr/**kwargs/format(**vars()) not followed); SimDevice and the login front-ends. Pattern "
+            "aliasing through containers, getattr/**kwargs/format(**vars()) not followed; which identifiers hold a dataclass object is "
+            "decided from annotations, constructor calls, typed attribute stores and, since the objects travel through untyped "
+            "factories, the holder's name; a dataclass with its own __repr__ / repr=False is a sink row of its own / prints nothing); SimDevice and the login front-ends. Pattern "
             "matching is abstracted (the answers are part of the universally quantified history). Not modelled: transports' own "
-            "authentication (paramiko/asyncssh/ssh2 take the password through library calls: covered by the sink table only), "
+            "authentication (paramiko/asyncssh/ssh2 take the password through library calls: covered by the sink table and, for "
+            "paramiko / asyncssh, by the oracle-only library-authentication scenarios below; ssh2 by the sink table only), "
             "send_input_and_read, read_callback, asyncio TimeoutError iterations of the asyncio ssh login. Response / MultiResponse "
             "str / repr / raise_for_status are modelled (resp record built from host, channel_input, failed_when_contains of the real "
             "object; one model case per probe). ORACLE-ONLY (no Coq model, covered by the sink table + the canary oracle): "
             "Response.textfsm_parse_output and every run with a failing transport write (model cases stop at a twrite exception); the real "
             "transport plugins are driven through fake endpoints (harness/c12_rt.py: open() replaced on the instance, the library "
-            "authentication of paramiko / asyncssh / ssh2 is not run; ssh2 is skipped when not installed). Known findings, kept out of "
+            "authentication of paramiko / asyncssh / ssh2 is not run there; ssh2 is skipped when not installed). ORACLE-ONLY as well: the "
+            "library-authentication scenarios (family libauth, harness/c12_auth.py) — ParamikoTransport.open / AsyncsshTransport.open "
+            "and their helpers have no Coq model; every outcome is scanned by the canary oracle (log records, both log files, "
+            "str + args of the whole exception chain incl. the library's own exceptions, repr/str of driver, channel, transport), "
+            "only the channel operations that FOLLOW an accepted authentication on a fake endpoint are model cases. The fakes replace "
+            "Socket / Transport / RSAKey (paramiko plugin module) and connect (asyncssh plugin module) for one scenario and are "
+            "restored afterwards (fail-closed if the plugin no longer has these names); the library exceptions they raise carry the "
+            "messages the real libraries use, never a credential. The loopback scenarios run the real paramiko / asyncssh clients "
+            "against asyncssh servers on 127.0.0.1 (an echo shell, no device: authentication outcome, repr, close only). "
+            "Known findings, kept out of "
             "the main exploration and replayed: repr(Response) and Response.textfsm_parse_output() of a send_interactive with a hidden "
             "input show it (Response.channel_input is the join of all event inputs); repr() is therefore only probed on responses "
             "without hidden inputs. A device that echoes "
